@@ -124,6 +124,69 @@ def gen_line(rng, names, malformed):
     return pat
 
 
+DIR_NAMES = [b"a", b"ab", b"A", b"a.b", b"b.", b".a", b"a-b", b"vendor", b"a b", b"[a]", b"a*"]
+SUB_NAMES = [b"keep", b"b", b"B", b"a.", b"c", b"-", b"sub.d"]
+FILE_NAMES = [b"a", b"c.txt", b"b.", b".a", b"A", b"x-y", b"keep"]
+
+
+def gen_idiom_repo(rng):
+    """the `<dir>/*` + `!<dir>/<sub>/` re-inclusion idiom and its relatives, with files at depths 1-3 below <dir>:
+    a trailing `*` covers exactly the direct children, so a re-included sub-directory shows ALL its files again"""
+    d = rng.choice(DIR_NAMES)
+    sub, sub2, other = rng.sample(SUB_NAMES, 3)
+    f1, f2, f3, f4 = (rng.choice(FILE_NAMES) for _ in range(4))
+    parent = rng.choice([b"", b"", b"p", b"A.b"])          # the directory that holds the ignore file
+    base = (parent + b"/" if parent else b"") + d
+    tree = {}
+    if parent:
+        tree[parent] = "d"
+        tree[parent + b"/" + rng.choice(FILE_NAMES)] = "f"
+    tree[base] = "d"
+    tree[base + b"/" + f1] = "f"                              # depth 1
+    tree[base + b"/" + sub] = "d"
+    tree[base + b"/" + sub + b"/" + f2] = "f"                 # depth 2
+    tree[base + b"/" + sub + b"/" + sub2] = "d"
+    tree[base + b"/" + sub + b"/" + sub2 + b"/" + f3] = "f"   # depth 3
+    tree[base + b"/" + other] = "d"
+    tree[base + b"/" + other + b"/" + f4] = "f"               # depth 2, not re-included
+    tree[rng.choice(FILE_NAMES)] = "f"
+    if rng.random() < 0.5:                                    # the same directory name elsewhere
+        tree[b"z"] = "d"
+        tree[b"z/" + d] = "d"
+        tree[b"z/" + d + b"/" + f1] = "f"
+        tree[b"z/" + d + b"/" + sub] = "d"
+        tree[b"z/" + d + b"/" + sub + b"/" + f2] = "f"
+    # a file and a directory cannot share a path
+    tree = {k: v for k, v in tree.items() if not (v == "f" and any(o.startswith(k + b"/") for o in tree))}
+    D, S, F = esc(d), esc(sub), esc(f1)
+    k = rng.randint(0, 8)
+    nested = {}
+    if k == 0:
+        lines = [D + b"/*", b"!" + D + b"/" + S + b"/"]
+    elif k == 1:
+        lines = [b"/" + D + b"/*", b"!/" + D + b"/" + S + b"/"]
+    elif k == 2:
+        lines = [D + b"/*", b"!" + D + b"/" + F]
+    elif k == 3:
+        lines = [b"**/" + D + b"/*", b"!**/" + D + b"/" + S + b"/"]
+    elif k == 4:
+        lines = [D + b"/*", b"!" + D + b"/" + S]
+    elif k == 5:                                             # the re-inclusion lives in a nested ignore file
+        lines = [D + b"/*"]
+        nested[base] = [b"!" + S + b"/", b"!/" + S]
+    elif k == 6:
+        lines = [D + b"/*", b"!" + D + b"/" + S + b"/", D + b"/" + S + b"/*", b"!" + D + b"/" + S + b"/" + esc(sub2) + b"/"]
+    elif k == 7:
+        lines = [D + b"/" + S + b"/*", b"!" + D + b"/" + S + b"/" + esc(sub2) + b"/", b"*.txt"]
+    else:
+        lines = [D + b"/*", b"!" + D + b"/*/", D + b"/" + esc(other) + b"/"]
+    if rng.random() < 0.2:
+        lines.insert(0, gen_line(rng, [d, sub, f1], False))
+    ignores = {parent: lines}
+    ignores.update(nested)
+    return dict(tree=tree, ignores=ignores, ci=rng.random() < 0.1)
+
+
 def gen_repo(rng, malformed):
     tree = gen_tree(rng)
     names = sorted({p.split(b"/")[-1] for p in tree})
@@ -137,6 +200,39 @@ def gen_repo(rng, malformed):
     if b"" not in ignores and rng.random() < 0.7:
         ignores[b""] = [gen_line(rng, names, malformed) for _ in range(rng.randint(1, 4))]
     return dict(tree=tree, ignores=ignores, ci=rng.random() < 0.2)
+
+
+_seen = {}
+_pending = []
+
+
+def viol(ctx, what, rep, nfi=False):
+    """at most 3 replays per kind; the message names the ignore files and the first differing path; reports without
+    a failing input are held back and dropped when the run produced a concrete violation"""
+    _seen[what] = _seen.get(what, 0) + 1
+    if _seen[what] > 3:
+        return
+    wit = ""
+    if "repo" in rep:
+        wit = " [ignore files=%r" % (rep["repo"]["ignores"],)
+        if "git" in rep and "rg" in rep:
+            g, r = set(rep["git"]), set(rep["rg"])
+            if g != r:
+                wit += " git-only=%r rg-only=%r" % (sorted(g - r)[:3], sorted(r - g)[:3])
+        if rep.get("entries"):
+            wit += " entries=%r" % (rep["entries"][:3],)
+        wit += "]"
+    if nfi:
+        _pending.append((what + wit, rep))
+    else:
+        ctx.violation(what + wit, rep, nfi=False)
+
+
+def flush_pending(ctx):
+    if not [v for v in ctx.violations if not v[1]]:
+        for what, rep in _pending:
+            ctx.violation(what, rep, nfi=True)
+    del _pending[:]
 
 
 # ----------------------------------------------------------------------------- running git and rg
@@ -380,12 +476,12 @@ def check_repos(ctx, repos):
                 if known:
                     ctx.known(known, "ignore files %r: git lists %r, rg lists %r" % (show(repo)["ignores"], rep["git"], rep["rg"]))
                 elif grammar:
-                    ctx.violation("rg --files lists a different set of files than git ls-files --others "
+                    viol(ctx, "rg --files lists a different set of files than git ls-files --others "
                                   "--exclude-standard", rep)
                 else:
                     ctx.cov["undocumented_shape_divergences"] = ctx.cov.get("undocumented_shape_divergences", 0) + 1
             if m in ("MISSING", "STACKOVERFLOW") or c in ("PANIC", "MISSING") or m.startswith("PARSEFAIL"):
-                ctx.violation("model/harness failure on a repository case: model=%s code=%s" % (m[:30], c[:30]), rep)
+                viol(ctx, "model/harness failure on a repository case: model=%s code=%s" % (m[:30], c[:30]), rep)
                 continue
             mv, cv = parse_val(m), parse_val(c)
             m_vis = list(mv[1]) if not isinstance(mv[1], bytes) else list(mv[1])
@@ -394,25 +490,25 @@ def check_repos(ctx, repos):
             # 2. link 2: walker model vs the real walker (every entry, directories included)
             if m_vis != c_vis:
                 bad = [ents[i][0].decode("latin1") for i in range(len(ents)) if m_vis[i] != c_vis[i]]
-                ctx.violation("gitignore/walker model and ignore::WalkBuilder disagree on which entries are visited "
+                viol(ctx, "gitignore/walker model and ignore::WalkBuilder disagree on which entries are visited "
                               "(theorems of Props/C04.v no longer describe the code)",
                               dict(rep, entries=bad, model=m, code=c), nfi=(gfiles == rfiles))
             # 3. the library walker and the rg binary agree
             lib_files = sorted(ents[i][0] for i in range(len(ents)) if ents[i][1] == "f" and c_vis[i])
             if lib_files != rfiles:
-                ctx.violation("rg --files and ignore::WalkBuilder (same configuration) list different files",
+                viol(ctx, "rg --files and ignore::WalkBuilder (same configuration) list different files",
                               dict(rep, lib=[x.decode("latin1") for x in lib_files]), nfi=(gfiles == rfiles))
             # 4. the specification itself: GitSem (extracted) vs real git, on the documented grammar
             spec_files = sorted(ents[i][0] for i in range(len(ents)) if ents[i][1] == "f" and s_vis[i])
             if grammar and not known:
                 ctx.cov["spec_vs_git_repos"] = ctx.cov.get("spec_vs_git_repos", 0) + 1
                 if spec_files != gfiles:
-                    ctx.violation("Spec/GitSem.v (git's documented semantics) disagrees with real git: the specification "
+                    viol(ctx, "Spec/GitSem.v (git's documented semantics) disagrees with real git: the specification "
                                   "is wrong", dict(rep, spec=[x.decode("latin1") for x in spec_files]), nfi=True)
                 # 5. rg model vs GitSem (the statement gitignore_eq_git, tested where it is not proved)
                 if [m_vis[i] for i in range(len(ents)) if ents[i][1] == "f"] != \
                    [s_vis[i] for i in range(len(ents)) if ents[i][1] == "f"] and gfiles == rfiles:
-                    ctx.violation("rg model and GitSem disagree on a repository where rg and git agree",
+                    viol(ctx, "rg model and GitSem disagree on a repository where rg and git agree",
                                   dict(rep, model=m), nfi=True)
             shutil.rmtree(root, ignore_errors=True)
     finally:
@@ -430,7 +526,7 @@ def check_one_file(ctx, repos):
     for r, line, m, c in zip(cases, lines, mo, co):
         ctx.cov["one_file_cases"] = ctx.cov.get("one_file_cases", 0) + 1
         if m != c:
-            ctx.violation("Gitignore::matched_path_or_any_parents: model and code disagree",
+            viol(ctx, "Gitignore::matched_path_or_any_parents: model and code disagree",
                           dict(kind=402, repo=show(r), line=line, model=m, code=c), nfi=True)
 
 
@@ -443,7 +539,7 @@ def check_add_line(ctx, cases):
         mv, cv = parse_val(m) if ok(m) else None, parse_val(c) if ok(c) else None
         ctx.cov["add_line_cases"] = ctx.cov.get("add_line_cases", 0) + 1
         if mv is None or cv is None or list(mv)[:2] != list(cv)[:2]:
-            ctx.violation("GitignoreBuilder::add_line: model and code disagree on skip/error/negation",
+            viol(ctx, "GitignoreBuilder::add_line: model and code disagree on skip/error/negation",
                           dict(kind=403, ci=ci, text=l.decode("latin1"), line=line, model=m, code=c), nfi=True)
 
 
@@ -463,6 +559,22 @@ CORPUS = [
     dict(tree={b"*": "f", b"ab": "f", b"[a]": "f", b"a": "f"}, ignores={b"": [b"\\*", b"\\[a\\]"]}, ci=False),
     dict(tree={b"!a": "f", b"#a": "f", b"a": "f"}, ignores={b"": [b"\\!a", b"\\#a", b"#a"]}, ci=False),
 ]
+CORPUS += [   # `<dir>/*` + re-inclusion of a sub-directory / a file: the `*` covers direct children only
+    dict(tree={b"vendor": "d", b"vendor/a.txt": "f", b"vendor/keep": "d", b"vendor/keep/c.txt": "f", b"vendor/keep/deep": "d",
+               b"vendor/keep/deep/d.txt": "f", b"vendor/other": "d", b"vendor/other/e.txt": "f", b"top": "f"},
+         ignores={b"": [b"vendor/*", b"!vendor/keep/"]}, ci=False),
+    dict(tree={b"v": "d", b"v/a": "f", b"v/k": "d", b"v/k/c": "f", b"v/k/d": "d", b"v/k/d/e": "f"},
+         ignores={b"": [b"/v/*", b"!/v/k/"]}, ci=False),
+    dict(tree={b"v": "d", b"v/a": "f", b"v/b": "f", b"v/k": "d", b"v/k/c": "f"}, ignores={b"": [b"v/*", b"!v/a"]}, ci=False),
+    dict(tree={b"p": "d", b"p/v": "d", b"p/v/a": "f", b"p/v/k": "d", b"p/v/k/c": "f", b"p/v/k/d": "d", b"p/v/k/d/e": "f"},
+         ignores={b"": [b"**/v/*", b"!**/v/k/"]}, ci=False),
+    dict(tree={b"p": "d", b"p/v": "d", b"p/v/a": "f", b"p/v/k": "d", b"p/v/k/c": "f", b"p/v/k/d": "d", b"p/v/k/d/e": "f"},
+         ignores={b"p": [b"v/*"], b"p/v": [b"!k/"]}, ci=False),
+]
+CORPUS += [   # a lone `!` (empty pattern) matches nothing; it used to re-include everything
+    dict(tree={b"a": "f", b"d": "d", b"d/b": "f", b"c": "f"}, ignores={b"": [b"a", b"d/", b"!"]}, ci=False),
+    dict(tree={b"a": "f", b"d": "d", b"d/b": "f"}, ignores={b"": [b"a", b"/", b"!/", b"! "]}, ci=False),
+]
 KNOWN_CORPUS = [
     dict(tree={b"a": "d", b"a/c": "f", b"abc": "f", b"a-c": "f"}, ignores={b"": [b"a[!b]c"]}, ci=False),          # class vs '/'
     dict(tree={b"a": "f", b"b": "f", b"{a,b}": "f"}, ignores={b"": [b"{a,b}"]}, ci=False),                       # D12
@@ -479,11 +591,13 @@ def run(ctx):
     check_repos(ctx, CORPUS)
     check_repos(ctx, KNOWN_CORPUS)
     n = ctx.count(220)
-    repos = [gen_repo(rng, rng.random() < 0.25) for _ in range(n)]
+    repos = [gen_idiom_repo(rng) if i % 5 == 0 else gen_repo(rng, rng.random() < 0.25) for i in range(n)]
+    ctx.cov["idiom_repos"] = sum(1 for i in range(n) if i % 5 == 0)
     check_repos(ctx, repos)
     check_one_file(ctx, CORPUS + KNOWN_CORPUS + repos)
     names = [x for x in NAME_POOL]
     check_add_line(ctx, [(rng.random() < 0.2, gen_line(rng, names, rng.random() < 0.3)) for _ in range(ctx.count(600))])
+    flush_pending(ctx)
     ctx.assumptions += [
         "git 2.39 (ls-files --others --exclude-standard, check-ignore) is the executable specification",
         "C12's trusted base: the regex text globset emits means tmatch",
@@ -497,3 +611,4 @@ def replay(ctx, data):
     elif "repo" in r:
         check_repos(ctx, [unshow(r["repo"])])
         check_one_file(ctx, [unshow(r["repo"])])
+    flush_pending(ctx)
